@@ -10,7 +10,8 @@
      4. the conformant model of the implementation, ImplOutcomes, = Find + the named deviations
           D1  $type:"bool" is answered from an index that stores 0/False and 1/True under one key
           D2  documents are only loaded when a doc. key occurs outside every $not
-        each switched off by a boolean constant (FixedD1, FixedD2) once the code is repaired
+          D3  $type:"int"/"float" is answered from an index that stores -1/-1.0 and -2/-2.0 under one key
+        each switched off by a boolean constant (FixedD1, FixedD2, FixedD3) once the code is repaired
      5. requirements: NotIsComplement, AndIsMeet, OrIsJoin, Local (theorems about Find, checked on
         every case; the same relations are evaluated on recorded real answers in MODE = "file"),
         ReqHolds (the conformant model meets Find - violated exactly while a deviation is on)
@@ -29,7 +30,8 @@ CONSTANTS MODE,        \* "grid" | "universe" | "build" | "file"  (Spelling.tla:
           MAXJOBS,     \* build: maximal corpus size
           MAXDEPTH,    \* build: maximal filter depth
           FixedD1,     \* TRUE once $type:"bool" no longer conflates 0/False, 1/True
-          FixedD2      \* TRUE once documents are loaded for doc. keys below $not
+          FixedD2,     \* TRUE once documents are loaded for doc. keys below $not
+          FixedD3      \* TRUE once $type:"int"/"float" no longer conflates -1/-1.0, -2/-2.0
 
 -----------------------------------------------------------------------------
 (* 1. values *)
@@ -224,48 +226,62 @@ MentionsDoc(f) ==
 LoadedW(f, d2) == IF d2 THEN DocOutsideNot(f) ELSE MentionsDoc(f)
 ImplValueAt(job, path, loaded) == IF Head(path) = "doc" /\ ~loaded THEN Abs ELSE ValueAt(job, path)
 
-RECURSIVE TypeBoolPaths(_)
-TypeBoolPaths(f) ==
-  CASE f.tag = "atom" -> IF f.op = "$type" /\ TypeNameOf(f.arg) = "bool" THEN {f.path} ELSE {}
-    [] f.tag = "all" -> {}
-    [] OTHER -> UNION {TypeBoolPaths(f.kids[i]) : i \in 1..Len(f.kids)}
-\* DEVIATION D1: the per-key index is a dict, so int n and bool n (n in {0,1}) of different jobs share one
-\* entry whose dict key is whichever came first in directory-listing order. pick[<<path, n>>] = TRUE
-\* means "the bool came first" (then $type:"bool" returns the int jobs as well), FALSE "the int came
-\* first" (then it returns neither). The listing order is not part of the abstract state: the model
-\* is nondeterministic in pick. (d1 = TRUE: the deviation is active)
-Conflated(C, path, n, loaded) ==
-  /\ \E i \in Ids(C) : LET v == ImplValueAt(C[i], path, loaded) IN v.t = "int"  /\ v.n = n
-  /\ \E i \in Ids(C) : LET v == ImplValueAt(C[i], path, loaded) IN v.t = "bool" /\ v.n = n
-PickDom(C, f, loaded) == {pn \in TypeBoolPaths(f) \X {0, 1} : Conflated(C, pn[1], pn[2], loaded)}
-Picks(C, f, loaded) == [PickDom(C, f, loaded) -> BOOLEAN]
-ImplAtomW(C, i, a, d1, loaded, pick) ==
-  LET v == ImplValueAt(C[i], a.path, loaded) IN
-  IF /\ d1 /\ a.op = "$type" /\ TypeNameOf(a.arg) = "bool"
-     /\ v.t \in {"int", "bool"} /\ v.n \in {0, 1} /\ <<a.path, v.n>> \in DOMAIN pick
-  THEN pick[<<a.path, v.n>>]
-  ELSE AtomOn(v, a)
-RECURSIVE ImplMatchW(_, _, _, _, _, _)
-ImplMatchW(C, i, f, d1, loaded, pick) ==
-  CASE f.tag = "atom" -> ImplAtomW(C, i, f, d1, loaded, pick)
+\* The per-key index is a Python dict. Values that are equal AND hash alike share one entry, whose dict key is the
+\* value of whichever job came first in directory-listing order; the type of the other job's value is lost.
+\* DEVIATION D1: int n and bool n, n in {0, 1}           (True == 1, hash(True) == hash(1))      -> $type:"bool"
+\* DEVIATION D3: int n and float n, n in {-1, -2}         (the _float hash shift +1 lands on CPython's reserved hash
+\*               value -1, which is mapped to -2 = hash(-1) = hash(-2))                          -> $type:"int", "float"
+\* A conflation class is <<path, n, kind>> with kind "bool" (D1) or "flt" (D3). pick[class] = TRUE means "the non-int
+\* (bool, float) came first". The listing order is not part of the abstract state: the model is nondeterministic in pick.
+TypePaths(f, names) ==
+  LET RECURSIVE TP(_)
+      TP(g) == CASE g.tag = "atom" -> IF g.op = "$type" /\ TypeNameOf(g.arg) \in names THEN {g.path} ELSE {}
+                 [] g.tag = "all" -> {}
+                 [] OTHER -> UNION {TP(g.kids[i]) : i \in 1..Len(g.kids)}
+  IN TP(f)
+IntOf(v) == v.n \div v.d                                   \* the integer a number equals (when it equals one)
+IsInt(v, n) == v.t = "int" /\ v.n = n
+IsBoolN(v, n) == v.t = "bool" /\ v.n = n
+IsFltN(v, n) == v.t = "flt" /\ v.n = n * v.d
+Conflated(C, path, n, kind, loaded) ==
+  /\ \E i \in Ids(C) : IsInt(ImplValueAt(C[i], path, loaded), n)
+  /\ \E i \in Ids(C) : LET v == ImplValueAt(C[i], path, loaded) IN IF kind = "bool" THEN IsBoolN(v, n) ELSE IsFltN(v, n)
+PickDom(C, f, loaded, d1, d3) ==
+       {c \in (IF d1 THEN TypePaths(f, {"bool"}) ELSE {}) \X {0, 1} \X {"bool"} : Conflated(C, c[1], c[2], c[3], loaded)}
+  \cup {c \in (IF d3 THEN TypePaths(f, {"int", "float"}) ELSE {}) \X {0 - 1, 0 - 2} \X {"flt"} : Conflated(C, c[1], c[2], c[3], loaded)}
+Picks(C, f, loaded, d1, d3) == [PickDom(C, f, loaded, d1, d3) -> BOOLEAN]
+ImplAtomW(C, i, a, loaded, pick) ==
+  LET v == ImplValueAt(C[i], a.path, loaded)
+      tn == IF a.op = "$type" THEN TypeNameOf(a.arg) ELSE ""
+      cb == <<a.path, v.n, "bool">>
+      cf == <<a.path, IF IsNum(v) THEN IntOf(v) ELSE 0, "flt">>
+  IN IF tn = "bool" /\ v.t \in {"int", "bool"} /\ cb \in DOMAIN pick THEN pick[cb]
+     ELSE IF tn = "float" /\ (v.t = "int" \/ IsFltN(v, cf[2])) /\ v.t \in {"int", "flt"} /\ cf \in DOMAIN pick THEN pick[cf]
+     ELSE IF tn = "int" /\ (v.t = "int" \/ IsFltN(v, cf[2])) /\ v.t \in {"int", "flt"} /\ cf \in DOMAIN pick THEN ~pick[cf]
+     ELSE AtomOn(v, a)
+RECURSIVE ImplMatchW(_, _, _, _, _)
+ImplMatchW(C, i, f, loaded, pick) ==
+  CASE f.tag = "atom" -> ImplAtomW(C, i, f, loaded, pick)
     [] f.tag = "all"  -> TRUE
-    [] f.tag = "not"  -> ~ImplMatchW(C, i, f.kids[1], d1, loaded, pick)
-    [] f.tag = "and"  -> \A k \in 1..Len(f.kids) : ImplMatchW(C, i, f.kids[k], d1, loaded, pick)
-    [] f.tag = "or"   -> \E k \in 1..Len(f.kids) : ImplMatchW(C, i, f.kids[k], d1, loaded, pick)
-\* all id sets the model allows when deviation D1 / D2 is active (d1, d2) or repaired
-OutcomesWith(C, f, d1, d2) ==
-  LET loaded == LoadedW(f, d2)
-      pks == IF d1 THEN Picks(C, f, loaded) ELSE {<<>>}
-  IN {{i \in Ids(C) : ImplMatchW(C, i, f, d1, loaded, pk)} : pk \in pks}
-ImplOutcomes(C, f) == OutcomesWith(C, f, ~FixedD1, ~FixedD2)
+    [] f.tag = "not"  -> ~ImplMatchW(C, i, f.kids[1], loaded, pick)
+    [] f.tag = "and"  -> \A k \in 1..Len(f.kids) : ImplMatchW(C, i, f.kids[k], loaded, pick)
+    [] f.tag = "or"   -> \E k \in 1..Len(f.kids) : ImplMatchW(C, i, f.kids[k], loaded, pick)
+\* all id sets the model allows when the deviations in ds (a subset of {"D1", "D2", "D3"}) are active
+OutcomesWith(C, f, ds) ==
+  LET loaded == LoadedW(f, "D2" \in ds) IN
+  {{i \in Ids(C) : ImplMatchW(C, i, f, loaded, pk)} : pk \in Picks(C, f, loaded, "D1" \in ds, "D3" \in ds)}
+Active == (IF FixedD1 THEN {} ELSE {"D1"}) \cup (IF FixedD2 THEN {} ELSE {"D2"}) \cup (IF FixedD3 THEN {} ELSE {"D3"})
+ImplOutcomes(C, f) == OutcomesWith(C, f, Active)
 
-\* which deviation explains an observed id set R (used to label alternatives and to judge records)
+\* which deviations explain an observed id set R (used to label alternatives and to judge records): the first match in
+DevSets == <<{"D1"}, {"D2"}, {"D3"}, {"D1", "D2"}, {"D1", "D3"}, {"D2", "D3"}, {"D1", "D2", "D3"}>>
+DevName(ds) == IF ds = {"D1"} THEN "D1" ELSE IF ds = {"D2"} THEN "D2" ELSE IF ds = {"D3"} THEN "D3"
+               ELSE IF ds = {"D1", "D2"} THEN "D1+D2" ELSE IF ds = {"D1", "D3"} THEN "D1+D3"
+               ELSE IF ds = {"D2", "D3"} THEN "D2+D3" ELSE "D1+D2+D3"
 Explain(C, f, R) ==
   IF R = Find(C, f) THEN "ok"
-  ELSE IF R \in OutcomesWith(C, f, TRUE, FALSE) THEN "D1"
-  ELSE IF R \in OutcomesWith(C, f, FALSE, TRUE) THEN "D2"
-  ELSE IF R \in OutcomesWith(C, f, TRUE, TRUE) THEN "D1+D2"
-  ELSE "unexplained"
+  ELSE LET hits == {k \in 1..Len(DevSets) : R \in OutcomesWith(C, f, DevSets[k])} IN
+       IF hits = {} THEN "unexplained" ELSE DevName(DevSets[CHOOSE k \in hits : \A q \in hits : k <= q])
 
 -----------------------------------------------------------------------------
 (* 5. requirements *)
@@ -282,7 +298,7 @@ one == <<49>>   ab == <<97, 98>>   a_ == <<97>>
 l12  == L(<<I(1), I(2)>>)
 l12f == L(<<F(1, 1), I(2)>>)
 mx1  == M(<< <<"x", I(1)>> >>)
-ValsA  == {Abs, I(0), I(1), F(1, 1), F(5, 2), B(TRUE), B(FALSE), Null, S(one), S(ab), l12, l12f, mx1}
+ValsA  == {Abs, I(0), I(1), F(1, 1), F(5, 2), B(TRUE), B(FALSE), Null, S(one), S(ab), l12, l12f, mx1, I(0 - 1), F(0 - 1, 1)}
 ValsNX == {Abs, I(0), I(1), F(5, 2), B(TRUE), S(ab), Null}        \* sp.n.x ; sp.n itself may be missing / not a mapping
 ValsN  == {Abs, I(1), M(<<>>)} \cup {M(<< <<"x", v>> >>) : v \in ValsNX \ {Abs}}
 ValsDX == {Abs, I(0), I(1), F(1, 1), B(TRUE), S(one), S(ab), l12, Null}
@@ -410,7 +426,7 @@ AddJob(j) == /\ Len(corpus) < MAXJOBS /\ \A i \in Ids(corpus) : ~JEq(corpus[i].s
              /\ corpus' = Append(corpus, j) /\ UNCHANGED stack
              /\ \A k \in 1..Len(stack) : WellTyped(corpus', stack[k])
 AddTwin ==   \* a job that differs from an existing one only in the TYPE of sp.a (1 / 1.0 / True; 0 / False)
-  \E i \in Ids(corpus) : \E v \in {I(0), I(1), F(1, 1), B(TRUE), B(FALSE)} :
+  \E i \in Ids(corpus) : \E v \in {I(0), I(1), F(1, 1), B(TRUE), B(FALSE), I(0 - 1), F(0 - 1, 1), I(0 - 2), F(0 - 2, 1)} :
      LET j == Job(M(<< <<"a", v>> >> \o SelectSeq(corpus[i].sp.m, LAMBDA pr : pr[1] # "a")), corpus[i].doc) IN AddJob(j)
 PushAtom(a) == /\ Len(stack) < 3 /\ WellTyped(corpus, a) /\ stack' = Append(stack, a) /\ UNCHANGED corpus
 Negate == /\ HasCase /\ Depth(Top) < MAXDEPTH /\ stack' = Append(Pop(1), Not(Top)) /\ UNCHANGED corpus
@@ -441,23 +457,23 @@ Local           == HasCase => LocalOn(Find, corpus, Top)
 \* the requirement of C06 on the conformant model: violated exactly while a deviation is switched on
 ReqHolds        == HasCase => ImplOutcomes(corpus, Top) = {Find(corpus, Top)}
 \* the model with all deviations switched off is the reference
-NoDeviationIsReference == (FixedD1 /\ FixedD2 /\ HasCase) => ImplOutcomes(corpus, Top) = {Find(corpus, Top)}
+NoDeviationIsReference == (FixedD1 /\ FixedD2 /\ FixedD3 /\ HasCase) => ImplOutcomes(corpus, Top) = {Find(corpus, Top)}
 
 -----------------------------------------------------------------------------
 (* 6d. export: expected answers leave TLC as NDJSON *)
 Mask(Sx) == FoldSet(LAMBDA i, acc : acc + 2 ^ (i - 1), 0, Sx)
 \* can the conformant model differ from the reference on this case at all? (cheap syntactic / corpus test)
 MayDeviate(C, f) ==
-  \/ ~FixedD1 /\ PickDom(C, f, TRUE) # {}
+  \/ PickDom(C, f, TRUE, ~FixedD1, ~FixedD3) # {}
   \/ ~FixedD2 /\ MentionsDoc(f) /\ ~DocOutsideNot(f) /\ \E i \in Ids(C) : C[i].doc.m # <<>>
-\* the id sets the conformant model allows, each labelled with the deviation that produces it ("ok" = the reference)
+\* the id sets the conformant model allows, each labelled with the deviations that produce it ("ok" = the reference)
 Outs(C, f) ==
   LET want == Find(C, f)
-      o1 == IF FixedD1 THEN {} ELSE OutcomesWith(C, f, TRUE, FALSE) \ {want}
-      o2 == IF FixedD2 THEN {} ELSE OutcomesWith(C, f, FALSE, TRUE) \ {want}
-      o3 == IF FixedD1 \/ FixedD2 THEN {} ELSE (OutcomesWith(C, f, TRUE, TRUE) \ {want}) \ (o1 \cup o2)
+      ks == {k \in 1..Len(DevSets) : DevSets[k] \subseteq Active}
+      lab(r) == DevName(DevSets[CHOOSE k \in ks : r \in OutcomesWith(C, f, DevSets[k]) /\ \A q \in ks : r \in OutcomesWith(C, f, DevSets[q]) => k <= q])
+      others == UNION {OutcomesWith(C, f, DevSets[k]) : k \in ks} \ {want}
       ok == IF want \in ImplOutcomes(C, f) THEN {<<Mask(want), "ok">>} ELSE {}
-  IN SetToSeq(ok \cup {<<Mask(r), "D1">> : r \in o1} \cup {<<Mask(r), "D2">> : r \in o2} \cup {<<Mask(r), "D1+D2">> : r \in o3})
+  IN SetToSeq(ok \cup {<<Mask(r), lab(r)>> : r \in others})
 OutSeq(C, fi) == LET al == Outs(C, Filters[fi]) IN
                  IF \A q \in 1..Len(al) : al[q][2] = "ok" THEN <<>> ELSE [q \in 1..Len(al) |-> <<fi, al[q][1], al[q][2]>>]
 \* one line per corpus: want[k] = mask of Find for filter k (-1: ill-typed pair, not a case);
